@@ -623,8 +623,11 @@ where
                     }
                 }
             }
-            Instruction::Next => todo!(),
-            Instruction::Last => todo!(),
+            // Not implemented; no compiler output contains them, but hand-built
+            // or corrupted bytecode can.
+            Instruction::Next | Instruction::Last => {
+                return Err(self.err(MachineErrorType::InvalidInstruction));
+            }
             Instruction::Call(t) => match t {
                 Target::Unresolved(label) => {
                     return Err(self.err(MachineErrorType::UnresolvedTarget(label)));
